@@ -168,7 +168,7 @@ class _:
     inner products between every pair of classes, norms."""
 
     def cases(self, tier, rng):
-        shapes = [(2, 3), (2, 3, 2), (3, 2, 2, 2)] if tier == "quick" else [(2, 3), (3, 1), (2, 3, 2), (2, 2, 2), (3, 2, 2, 2), (2, 3, 2, 2, 2)]
+        shapes = [(2, 3), (2, 3, 2), (3, 2, 2, 2), (4, 2, 3, 2), (2, 3, 2, 5), (2, 3, 2, 3, 2)] if tier == "quick" else [(2, 3), (3, 1), (2, 3, 2), (2, 2, 2), (3, 2, 2, 2), (4, 2, 3, 2), (2, 3, 2, 5), (2, 3, 2, 2, 2), (2, 3, 2, 3, 2)]
         for shp in shapes:
             for rep in range(1 if tier == "quick" else 3):
                 yield dict(shape=list(shp), seed=rng.randrange(10**6))
@@ -294,6 +294,21 @@ class _:
                 got = T.ttt(TY, np.array(sd), np.array(sd))
                 if not _close(_dense(ttb, got), exp):
                     raise Fail("ttt:modes", f"{case} dims={sd}")
+        # the k-th listed mode of self is contracted with the k-th listed mode of other, whatever the two orders:
+        # other = Y with its modes permuted, so the matching mode lists are differently ordered
+        for perm in itertools.permutations(range(N)):
+            if list(perm) == list(range(N)):
+                continue
+            Z = np.transpose(Y, perm).copy()          # mode j of Z is mode perm[j] of Y
+            TZ = ttb.tensor(Z.copy())
+            where = {perm[j]: j for j in range(N)}
+            for k in range(1, N + 1):
+                for sd in itertools.permutations(range(N), k):
+                    od = [where[m] for m in sd]
+                    exp = np.tensordot(X, Z, axes=(list(sd), od))
+                    got = T.ttt(TZ, np.array(sd), np.array(od))
+                    if not _close(_dense(ttb, got), exp):
+                        raise Fail("ttt:mode-pairing", f"{case} selfdims={sd} otherdims={od}")
         # ttsv on cubical tensors
         if len(set(shp)) == 1 and N >= 2:
             v = rs.randint(-2, 3, size=shp[0]).astype(float)
